@@ -67,6 +67,12 @@ def main():
     ck.assumptions = ['python models of Vec/HashSet/IndexMap/iterator functions', 'oracle = placement rules transcribed from the statement as a z3 formula over the variable choices']
     ex = engine.explore('c12', 'path', args, jobs=ck.jobs, deadline=time.time() + (600 if quick else 3600))
     cands = ck.absorb('schema accepted <=> placement rules hold', ex, bounds=dict(configs=len(args)), expect_tags=['accepted', 'refused'])
+    for wt in ex.wsamples:
+        how = wt['how'] if wt['how'] != 'zerv_new' else 'new'
+        r = native.driver().call(op='schema_check', schema=wt['schema'], how=how)
+        ck.validated += 1
+        if 'panic' in r or bool(r.get('ok')) != bool(wt['accepted']):
+            ck.validation_mismatch.append(dict(schema=wt['schema'], how=wt['how'], msym=wt['accepted'], native=r))
     seen = set()
     for v in cands:
         key = json.dumps(v, sort_keys=True, default=str)
